@@ -298,7 +298,13 @@ fn __dump_header(f: &PathBuf, h: &Qcow2Header) {
     println!("Qcow2 Header: image {:?} length {}", f, h.header_length());
     println!("\t version\t {}", h.version());
     println!("\t virtual_size\t {} MB", h.size() >> 20);
-    println!("\t cluster_size\t {} KB", 1 << (h.cluster_bits() - 10));
+    // cluster_bits may be 9 (512 byte clusters), which is less than 1 KB
+    let cluster_size = 1u64 << h.cluster_bits();
+    if cluster_size >= 1024 {
+        println!("\t cluster_size\t {} KB", cluster_size >> 10);
+    } else {
+        println!("\t cluster_size\t {} B", cluster_size);
+    }
     println!("\t refcount_order\t {}", h.refcount_order());
     println!(
         "\t crypt_method\t {}",
